@@ -72,6 +72,12 @@ class Walker:
 
     def fail(self, prop, kind, msg):
         self.fails.append("%s/%s: %s" % (prop, kind, msg))
+        if prop == "C06" and kind in ("callback-after-remove", "token-alive", "not-released"):
+            # the same failure is a C08 failure when the remove() was issued from inside a callback / idle: it did not have the effect
+            # it would have had outside a dispatch
+            for h in sorted(getattr(self, "removed_inside", ())):
+                if ("source %d " % h) in msg or ("source %d:" % h) in msg or msg.rstrip().endswith("source %d" % h) or ("of %d " % h) in msg:
+                    self.fails.append("C08/remove-without-effect: remove() of source %d was called from inside a callback and returned, yet: %s" % (h, msg))
         if (prop, kind) in (("C02", "missed-timer"), ("C05", "missed"), ("C02", "missed")):
             # readiness survives the gap (C07): a source that was disabled and enabled again and then misses an event that is due
             for h, d in getattr(self, "reenabled", {}).items():
@@ -246,6 +252,9 @@ class Walker:
                 self.failed_insert.add(h)
                 self.excuse(h, "insert-failed")
         elif op == 2:
+            if self.cur is not None or self.cur_idle is not None:
+                self.removed_inside = getattr(self, "removed_inside", set())
+                self.removed_inside.add(h)
             if h in self.live:
                 if insider:
                     self.pending_self.append(("dead", h))
@@ -502,6 +511,12 @@ class Walker:
             if tag == "6":    # dispatch end
                 self.close_segment()
                 ok = int(ws[2]) == 0
+                er = getattr(self, "err_returned", None)
+                if er is not None and er[0] == self.disp_no:
+                    RULE_STATS["C15/error-swallowed: dispatches in which a source returned Err"] += 1
+                    if ok:
+                        self.fail("C15", "error-swallowed", "the event processing of source %d returned an error in this dispatch, but dispatch() returned Ok(())" % er[1])
+                self.err_returned = None
                 if self.snapshot is not None:
                     # a reported one-shot / edge sub has used up the arming it had when the dispatch polled, however the dispatch ends
                     for k in getattr(self, "fired_subs", set()):
@@ -687,6 +702,8 @@ class Walker:
         if kind == "comp" and not timer_sub:
             if sc[0] == 3:
                 self.pending_self.append(("dead", h))
+            if sc[0] == 4:
+                self.err_returned = (self.disp_no, h)      # this source's process_events returns Err: the dispatch must report it (C15)
             if sc[0] != 0:
                 # a post action other than Continue (Reregister / Disable / Remove / Err) is an operation of the source on itself:
                 # events for its other sub-sources later in the same batch may legitimately be dropped (C02's own exception)
